@@ -260,6 +260,9 @@ DIRECTED = [
     "handlers = [lambda *args, **kwargs: (args, kwargs), lambda first, second, /: first + second, lambda value, *rest, flag=None: (value, rest, flag)]\n",
     "def f():\n    from django.db.models import Q\n    from re import I, M\n    alpha=beta=gamma=delta=epsilon=zeta=eta=theta=iota=kappa=lam=mu=nu=xi=omicron=pi=rho=sigma=1\n    return [alpha,beta,gamma,delta,epsilon,zeta,eta,theta,iota,kappa,lam,mu,nu,xi,omicron,pi,rho,sigma,Q,I,M,alpha,beta,gamma,delta,epsilon,zeta,eta,theta,iota,kappa,lam,mu,nu,xi,omicron,pi,rho,sigma]\n",
     "x = 1\ndef f(x):\n    class C:\n        x = x\n    return C.x\nprint(f(10))\n",
+    'def f(text):\n    from re import I, M\n    from django.db.models import Q, F\n    flags = [I, M, Q, F, I, M, Q, F, I, M, Q, F, I | M]\n    alpha = beta = gamma = delta = epsilon = zeta = eta = theta = iota = kappa = lam = mu = nu = xi = 1\n    return [flags, alpha, beta, gamma, delta, epsilon, zeta, eta, theta, iota, kappa, lam, mu, nu, xi, text]\n',
+    'from re import I, M\nfrom os import F_OK as F\nflags = [I, M, F, I, M, F, I, M, F, I | M]\nalpha = beta = gamma = delta = epsilon = zeta = eta = theta = iota = kappa = lam = mu = nu = xi = 1\nprint(flags, alpha, beta, gamma, delta, epsilon, zeta, eta, theta, iota, kappa, lam, mu, nu, xi)\n',
+    'def g(B, A=2, *C, D=4, **E):\n    alpha = beta = gamma = delta = epsilon = zeta = eta = theta = iota = kappa = lam = mu = nu = xi = 1\n    return [A, B, C, D, E, A, B, C, D, E, alpha, beta, gamma, delta, epsilon, zeta, eta, theta, iota, kappa, lam, mu, nu, xi]\n',
     "def f(a, b=1, *args, c=2, **kwargs):\n    return a + b + c + len(args) + len(kwargs)\nprint(f(1))\n",
     "def outer():\n    total = 0\n    def inner(x):\n        nonlocal total\n        total += x\n        return total\n    return inner\n",
     "x = 1\ndef f():\n    global x\n    x = 2\n    return x\n",
